@@ -1201,7 +1201,7 @@ def build_topic(p, seed):
 
 
 def _gen_stream(rng):
-    return {"partitions": rng.choice([2, 4, 6]), "consumers": rng.choice([2, 3, 4]), "assign": rng.choice(["range", "rr", "sticky", "custom"]),
+    return {"partitions": rng.choice([2, 4, 6]), "consumers": rng.choice([2, 3, 4]), "assign": rng.choice(["range", "rr", "sticky", "custom", "custom"]),
             "records": rng.choice([60, 120]), "retention": rng.choice([None, "size", "time"]), "leave": rng.random() < 0.6,
             "sharding": rng.choice(["hash", "consistent"])}
 
